@@ -322,15 +322,15 @@ Proof.
   intros Hv He Hs. unfold k_assign_ss.
   destruct (clear_correct v Hv) as (Ci & Ce & Cs & Cc).
   set (c := sv_clear v) in *.
-  assert (N0 : sv_nnz c = 0%nat) by (unfold sv_nnz; rewrite Ce; reflexivity).
-  rewrite <- N0. destruct (sv_fill_end c (sv_el e)) as (A & B & _ & D & _).
+  assert (N0 : 0%nat = length (sv_el c)) by (rewrite Ce; reflexivity).
+  destruct (sv_fill_end_gen (sv_el e) c 0%nat N0) as (A & B & _ & D & _).
   rewrite Ce in A. simpl in A. destruct He as [Se Cap].
-  assert (R : sv_inv (fst (sv_fill c (sv_nnz c) (sv_el e)))).
+  assert (R : sv_inv (fst (sv_fill c 0 (sv_el e)))).
   { split.
     - rewrite A, B, Cs, Hs. exact Se.
-    - unfold sv_nnz at 1. rewrite A. rewrite N0 in D. simpl in D. apply D.
-      + destruct Ci as [_ X]. rewrite N0 in X. lia.
-      + pose proof (sorted_in_length _ _ _ Se). rewrite Cs, Hs. lia. }
+    - unfold sv_nnz at 1. rewrite A. simpl in D. apply D.
+      + lia.
+      + pose proof (sorted_in_length _ _ _ Se). try rewrite Cs. lia. }
   cbv zeta. repeat split; try apply R; try congruence.
   intros i. unfold sden. rewrite A. reflexivity.
 Qed.
@@ -391,15 +391,14 @@ Proof. revert i; induction l; simpl; intros; auto. Qed.
 Lemma enum_from_lookup k i l :
   lookup k (enum_from i l) = if (i <=? k)%nat && (k <? i + length l)%nat then Some (nth (k - i) l 0) else None.
 Proof.
-  revert i; induction l as [|y s IH]; intros i; simpl.
-  - destruct (Nat.leb_spec i k); destruct (Nat.ltb_spec k (i + 0)); simpl; auto; lia.
+  revert i; induction l as [|y s IH]; intros i; cbn [enum_from lookup length].
+  - destruct (Nat.leb_spec i k); destruct (Nat.ltb_spec k (i + 0)); cbn [andb]; auto; lia.
   - rewrite IH. destruct (Nat.eqb_spec k i) as [->|N].
-    + rewrite Nat.leb_refl. replace (i <? i + S (length s))%nat with true by (symmetry; apply Nat.ltb_lt; lia).
+    + rewrite Nat.leb_refl. destruct (Nat.ltb_spec i (i + S (length s))); [|lia].
       rewrite Nat.sub_diag. reflexivity.
-    + destruct (Nat.leb_spec (S i) k); destruct (Nat.leb_spec i k); try lia; simpl.
-      * destruct (Nat.ltb_spec k (S i + length s)); destruct (Nat.ltb_spec k (i + S (length s))); try lia; auto.
-        replace (k - i)%nat with (S (k - S i)) by lia. reflexivity.
-      * reflexivity.
+    + destruct (Nat.leb_spec (S i) k), (Nat.leb_spec i k), (Nat.ltb_spec k (S i + length s)),
+               (Nat.ltb_spec k (i + S (length s))); try lia; cbn [andb]; auto.
+      replace (k - i)%nat with (S (k - S i)) by lia. reflexivity.
 Qed.
 
 Theorem assign_sd_correct v e :
@@ -413,16 +412,16 @@ Proof.
   destruct (clear_correct v Hv) as (Ci & Ce & Cs & Cc).
   destruct (reserve_correct (sv_clear v) (length e) Ci) as (Ri & Re & Rs & Rc).
   set (c := sv_reserve (sv_clear v) (length e)) in *.
-  assert (N0 : sv_nnz c = 0%nat) by (unfold sv_nnz; rewrite Re, Ce; reflexivity).
-  rewrite <- N0. destruct (sv_fill_end c (enum_from 0 e)) as (A & B & _ & D & _).
+  assert (N0 : 0%nat = length (sv_el c)) by (rewrite Re, Ce; reflexivity).
+  destruct (sv_fill_end_gen (enum_from 0 e) c 0%nat N0) as (A & B & _ & D & _).
   rewrite Re, Ce in A. simpl in A.
   assert (SE : sorted_in 0 (sv_size v) (enum_from 0 e)) by (apply enum_from_sorted; lia).
-  assert (R : sv_inv (fst (sv_fill c (sv_nnz c) (enum_from 0 e)))).
+  assert (R : sv_inv (fst (sv_fill c 0 (enum_from 0 e)))).
   { split.
     - rewrite A, B, Rs, Cs. exact SE.
-    - unfold sv_nnz at 1. rewrite A. rewrite N0 in D. simpl in D. apply D.
+    - unfold sv_nnz at 1. rewrite A. simpl in D. apply D.
       + lia.
-      + rewrite enum_from_length, Rs, Cs. lia. }
+      + rewrite enum_from_length. try rewrite Rs. try rewrite Cs. lia. }
   cbv zeta. repeat split; try apply R.
   - rewrite B, Rs, Cs. reflexivity.
   - unfold sv_nnz. rewrite A. apply enum_from_length.
